@@ -57,12 +57,7 @@ ASSUMPTIONS = [
     'call had already made; runs containing $sample are compared on raised / did not raise and '
     'on the pipeline object only',
     'input-unchanged is judged per stage on the real code for the first two top-level stages '
-    'other than $lookup / $out / $facet / $sample whose prefix is deterministic; a $unwind whose '
-    'includeArrayIndex is a dotted name going through the unwound field itself, on a document '
-    'that holds a SUB-DOCUMENT (no array) there, writes the (null) index into that sub-document, '
-    'which is re-attached as it is — an object of the stage\'s input, never of the '
-    'store or of the caller (aggregate works on copies): counted, not judged, outside the heap '
-    'model (array elements are the output document\'s own copies and ARE judged)',
+    'other than $lookup / $out / $facet / $sample whose prefix is deterministic',
     'repeatability is judged on two consecutive runs on the same database; when $out writes a '
     'collection the pipeline reads, the second run sees other data and is not compared; with '
     '$sample in the pipeline the two runs are two draws: their answers (and whether a later stage '
@@ -104,6 +99,24 @@ FOLLOWED = [
     ('0383ef2', [{'$facet': {'x': [{'$unwind': {'path': '$arr', 'includeArrayIndex': 'arr.p.ix',
                                                 'preserveNullAndEmptyArrays': True}}],
                              'y': [{'$unwind': '$arr'}, {'$addFields': {'arr.w': 1}}]}}]),
+    # 0532f7e: … and its own copy of a value that is no array
+    ('0532f7e', [{'$unwind': {'path': '$a', 'includeArrayIndex': 'a.ix'}}]),
+    ('0532f7e', [{'$facet': {'x': [{'$unwind': {'path': '$a', 'includeArrayIndex': 'a.y.ix',
+                                                'preserveNullAndEmptyArrays': True}}],
+                             'y': [{'$unwind': '$a'}, {'$addFields': {'a.w': 1}}]}}]),
+    # fce7e55: an array in expression position evaluates its items (sub-documents of the input
+    # document become items of the new list; a missing value gives null)
+    ('fce7e55', [{'$addFields': {'l': ['$a', '$a.y', '$nope', {'u': '$a'}, ['$k']]}},
+                 {'$addFields': {'l.w': 1}}, {'$unwind': {'path': '$l', 'includeArrayIndex': 'ix'}}]),
+    ('fce7e55', [{'$project': {'l': ['$a', {'$literal': {'q': 1}}]}},
+                 {'$facet': {'x': [{'$unwind': '$l'}, {'$addFields': {'l.z': 2}}], 'y': []}}]),
+    # d1da933: the stages work on a rebuilt pipeline — nothing they do reaches the caller's object
+    ('d1da933', [{'$replaceRoot': {'newRoot': {'$literal': {'q': {'r': 1}}}}},
+                 {'$addFields': {'q.z': 1}}, {'$out': 'c'}]),
+    ('d1da933', [{'$sample': {'size': 2}}, {'$addFields': {'n': [{'$literal': [1]}, 2]}}]),
+    # 391498a: a double that holds a whole number is an integer for $limit / $skip
+    ('391498a', [{'$skip': 1.0}, {'$limit': 2.0}]),
+    ('391498a', [{'$limit': 1.5}]),
     # 482a7bb: $count over no documents
     ('482a7bb', [{'$match': {'k': 7}}, {'$count': 'n'}]),
     # 2432305: stage documents with no / several operators
@@ -333,9 +346,10 @@ class Judge(object):
             if 'input' not in a:
                 continue
             i = int(tag.split(':')[1])
-            if L.index_through_unwound(p[i], dec(a['input_before'])):
-                self.checks['input_not_judged_index_through_unwound_subdocument'] += 1
-                continue
+            if L.index_through_unwound(p[i]):
+                # judged like every other stage since $unwind gives every output document its
+                # own copy of the element / of the value that is no array
+                self.checks['input_unchanged_index_through_unwound_field'] += 1
             self.checks['input_unchanged'] += 1
             if a['input'] != a['input_before'] or not a.get('input_ids_same', True):
                 self.bad(case, 'stage %d (%s) changed the documents it was handed'
